@@ -23,6 +23,8 @@ RULE = ("file_formats[bin|raw|bk_wav|bk_turbo_wav] of the real code on: an image
         "(byte for byte, or by a (length, sum, sum of prefix sums, sum of those) for large outputs) and decoded by the Spec readers "
         "(parse_bin / parse_wav + demod + cksum_spec) inside coqc.  Paths: os.path/resolve_relative_path on generated path strings, "
         "every make_xxx directive x path form x tape-name form x source-name form through the assembler (Compiler.emitted_files), "
+        "sources with 2-4 make_xxx directives (several of the same container with different paths and explicit/inferred tape names, "
+        "mixed containers, the same path twice, together with -o), "
         "and real `python -m pdpy11` runs in scratch directories for every output selector (files found = files expected, "
         "contents decoded by the Spec readers).  non-trivial = distinct (container, base, image, name) with a non-empty image, "
         "distinct path triple, distinct directive case, distinct CLI scenario")
@@ -476,6 +478,43 @@ def gen_cli_cases(rng, tier):
     add([("proj/src/one.mac", []), ("proj/lib/two.mac", [("make_bin", "out/b.bin", None), ("make_wav", None, None)])])
     add([("proj/src/one.mac", [("make_raw", None, None)]), ("proj/lib/two.mac", [("make_raw", None, None)])], cwd="proj/lib")
     add([("proj/src/one.mac", []), ("proj/lib/two.mac", [])], implicit=True)
+    # several directives of the SAME container in one source: every file must carry ITS OWN tape name
+    for d in ("make_wav", "make_turbo_wav"):
+        add([(S, [(d, "one.wav", "FIRST"), (d, "two.wav", "SECOND")])])
+        add([(S, [(d, "one.wav", None), (d, "two.wav", None)])])
+        add([(S, [(d, None, None), (d, "other.wav", None), (d, "sub/third.wav", "0123456789ABCDEF")])], outfile="o.bin")
+        add([(S, [(d, "a.wav", "A"), (d, "sub/a.wav", "B"), (d, "../side/a.wav", "C"), (d, "ABS:/o/a.wav", None)])], cwd="proj/src")
+        add([(S, [(d, "same.wav", "OLD"), (d, "same.wav", "NEW")])])
+        add([(S, [(d, "x.wav", "SAME"), (d, "y.wav", "SAME")])], outfile="-")
+        add([(S, [(d, "n1.wav", "N"), ("make_bin", None, None), (d, "n2.wav", None), ("make_raw", "r", None)])], outfile="sub/k")
+    add([(S, [("make_wav", "w1.wav", "W1"), ("make_turbo_wav", "t1.wav", "T1"), ("make_wav", "w2.wav", "W2"), ("make_turbo_wav", "t2.wav", "T2")])])
+    add([(S, [("make_turbo_wav", "t1.wav", None), ("make_wav", "t1x.wav", None), ("make_turbo_wav", "sub/t2.wav", None), ("make_wav", None, None)])], outfile="x.raw")
+    add([(S, [("make_bin", None, None), ("make_bin", "b2.bin", None), ("make_bk0010_rom", "b3", None), ("make_raw", None, None), ("make_raw", "r2", None)])], outfile="o2.bin")
+    add([("proj/src/one.mac", [("make_wav", None, None), ("make_wav", "x.wav", "ONE")]), ("proj/lib/two.mac", [("make_wav", None, None), ("make_wav", "x.wav", "TWO")])])
+    add([(S, [("make_wav", "one.wav", "FIRST"), ("make_wav", "two.wav", "0123456789ABCDEFG")])])
+
+    def multi():
+        k = rng.choice([2, 2, 3, 3, 4])
+        main = rng.choice(list(DIRS))
+        dirs, used_default = [], set()
+        pool = ["m%d.wav" % i for i in range(4)] + ["sub/m.wav", "sub/deep/m.WAV", "../side/m.bin", "ABS:/o/m", "m", "q/m.x"]
+        for _ in range(k):
+            d = main if rng.random() < 0.7 else rng.choice(list(DIRS))
+            if rng.random() < 0.2 and d not in used_default:
+                pth = None
+                used_default.add(d)
+            else:
+                pth = rng.choice(pool)
+            t = None
+            if pth is not None and "wav" in d and rng.random() < 0.6:
+                t = rng.choice(["A", "B", "NAME", "0123456789ABCDEF", "", "x y", "0123456789ABCDEFG" if rng.random() < 0.15 else "Z"])
+            dirs.append((d, pth, t))
+        return dirs
+
+    for _ in range(24 if tier == "quick" else 160):
+        add([(rng.choice(["proj/src/prog.mac", "proj/src/P.MAC", "proj/src/noext.asm"]), multi())],
+            outfile=rng.choice([None, None, "k.bin", "sub/k", "-"]), implicit=rng.random() < 0.3,
+            cwd=rng.choice(["proj", "proj/src", ""]), spell=rng.choice(["rel", "abs"]), base=rng.choice(BASES[:4]))
     n = 0 if tier == "quick" else 300
     for _ in range(n):
         d = rng.choice(list(DIRS))
@@ -595,6 +634,11 @@ def cli_expected(s_, o):
             stdout_kind = kind
         else:
             exp.append((os.path.realpath(os.path.join(o["cwd"], outfile)), kind, None))
+    # a path written twice holds what the LAST directive / option naming it asked for
+    last = {}
+    for e in exp:
+        last[e[0]] = e
+    exp = [e for e in exp if last[e[0]] is e]
     return (None if fail else exp), stdout_kind
 
 
